@@ -138,7 +138,7 @@ def _addr_form_ok(m, mode, vex):
     return None       # label, index without base, 16-bit, VSIB, 64-bit / zero-extended absolute, relative
 
 
-def theorem_family(ew, enc, names):
+def theorem_family(ew, enc, names, iflags=0x400000):
     """ew: fields of the emit line; enc: encoding class of the instruction row; names: gen_c01.COVER_NAMES -> family name or None"""
     mode, name, opts, k, ops = int(ew[0]), ew[3], ew[4], ew[5], ew[6:]
     optl = [] if opts == "-" else opts.split(",")
@@ -191,8 +191,10 @@ def theorem_family(ew, enc, names):
                 return None
             return "vex_reg" + ("_dec" if optl or k != "-" else "")
         if sig[xi] == "M" and mode == 64:
-            if optl == ["vex"] and k == "-":
+            if optl == ["vex"]:
                 optl = []                       # emitVexEvexM_vexopt: neutral
+            elif optl == ["evex"] and not iflags & 0x400000:
+                optl = []                       # emitVexEvexM_evexopt_evexonly: EVEX-only instruction, the option changes no byte
             if any(o != "z" for o in optl):
                 return None
             if bc and (sh in ("mr", "mri") or af == "abs"):
@@ -506,7 +508,7 @@ def run(res):
             if ew[3] not in rows:
                 continue
             encid = int(rows[ew[3]][1])
-            t = theorem_family(ew, encid, gen_c01.COVER_NAMES)
+            t = theorem_family(ew, encid, gen_c01.COVER_NAMES, int(rows[ew[3]][4], 16))
             if t:
                 fam[t.split("_mem_")[0] + ("_mem" if "_mem_" in t else "")] += 1
             else:
